@@ -563,6 +563,11 @@ func (s *BaseNodeService) reinitDKG(message storage.Message) error {
 		return fmt.Errorf("failed to umarshal request:  %w", err)
 	}
 
+	// no round can be created under an empty id: refuse the message before anything is stored for it
+	if strings.TrimSpace(req.DKGID) == "" {
+		return errors.New("empty {dkgID}")
+	}
+
 	roundExist, existErr := s.fsmService.IsExist(req.DKGID)
 	if existErr != nil {
 		return existErr
